@@ -267,7 +267,10 @@ def run_case(case, ctx):
     if must_raise and not is_ok(out) and out[1] not in allowed:
         ctx.violation("undocumented-error-class", f"{label} raised {out[1]} ({out[2][:160]}), documented: "
                       f"{sorted(allowed)}", {"m": c.get("m", c["mode"]), "err": out[1]})
-    changed_ok = c["mode"] == "bad" and not must_raise and is_ok(out)   # e.g. pid None = plain store
+    # a "bad" value that is in fact legal (pid None = store without tagging, additional_algorithm None = none)
+    # makes the call an ordinary operation: it may change the store, also when it is then refused for another
+    # reason (e.g. the pid is already bound, after the object was stored)
+    changed_ok = c["mode"] == "bad" and not must_raise
     if before != after and not changed_ok:
         ctx.violation("store-changed", f"{label} -> {oc}: the store directory changed: "
                       f"{common.snap_diff(before, after)} (history: {[o['op'] + ':' + str(o.get('pid')) for o in case['ops']]})",
